@@ -59,3 +59,6 @@ Proof.
   - destruct IH as [a' [[w0 Ha] Hb]]; [exists w'; exact H|].
     exists a'; split; [exists w0; right; exact Ha | exact Hb].
 Qed.
+
+Lemma bind_ext {A B} (d : dist A) (f g : A -> dist B) : (forall a, f a = g a) -> bind d f = bind d g.
+Proof. intros H; induction d as [|[w a] d IH]; simpl; [reflexivity | rewrite H, IH; reflexivity]. Qed.
